@@ -287,15 +287,19 @@ def sem_rules(rep):
     rep.rule('SUP-LIP', '0 <= provided_service(delta + 1) - provided_service(delta) <= 1 for all delta and parameters (quotient-step case split)')
     rep.rule('SUP-INV', 'for d >= 1: provided_service(service_time(d)) >= d and provided_service(service_time(d) - 1) <= d - 1 (composition of the guarded cases)')
     rep.rule('SUP-SIB', 'Constrained[deadline := period] = Periodic, Periodic[budget := period] = Dedicated, Constrained[budget := deadline := period] = Dedicated, for provided_service and service_time')
+    rep.rule('SUP-SHAPE', 'provided_service is the supply of the worst-case budget placement, clause by clause: 0 for delta <= (P-B)+(D-B); '
+             'delta - blackout on the next B time units; B until blackout + P; and provided_service(delta + P) = provided_service(delta) + B '
+             'from the blackout on (D = P for the periodic model; provided_service(delta) = delta for the dedicated processor)')
 
 
 def c09(ctx, rep):
     crate = ctx.crate('dbg')
     for a in MODEL_ASSUMPTIONS:
         rep.assume(a)
-    rep.assume('the reference terms of Periodic / Constrained provided_service and service_time were checked by hand against the '
-               'worst-case budget placement (first blackout 2(P-B) resp. (P-B)+(D-B), then B units of service per period); that the '
-               'closed forms equal the minimum over ALL placements for all parameters is arithmetic and is not decided')
+    rep.assume('that the worst-case placement of the budget is "as early as possible in one period, as late as its deadline allows in '
+               'all later ones" (first blackout (P-B)+(D-B), then B units of service per period) is the scheduling-model fact of '
+               'Shin & Lee; it is taken from the literature, not decided. What is decided (SUP-SHAPE) is that the code computes the '
+               'supply of exactly that placement for every delta and all parameters')
     model_rules(rep)
     rep.rule('ST-INIT/ST-RET/ST-STEP', 'default service_time: starts at t = demand, returns t exactly when provided_service(t) >= demand, advances by demand - supply')
     n = rules_models.check_ref(rep, crate, 'C09')
@@ -303,7 +307,7 @@ def c09(ctx, rep):
     sem_rules(rep)
     k = rules_sem.check_supply_laws(rep, crate)
     rep.floor('reference summaries compared', n, 15)
-    rep.floor('supply laws instantiated', k, 26)
+    rep.floor('supply laws instantiated', k, 33)
     return ('Static analysis of supply/. (1) The closed-form supply-bound functions and their closed-form inverses (Periodic, '
             'Constrained, Dedicated), the constructors\' precondition asserts and the forwarding impls are summarised as canonical '
             'terms and compared with reviewed references; the generic jump-ahead inverse is decided by its one-iteration loop '
@@ -312,9 +316,11 @@ def c09(ctx, rep):
             'integer divisions (sa/linarith.py, Fourier-Motzkin on the case polyhedra; no execution): provided_service(0) = 0, '
             '0 <= provided_service(d+1) - provided_service(d) <= 1, provided_service(service_time(d)) >= d and '
             'provided_service(service_time(d) - 1) <= d - 1 (service_time is the exact inverse), Constrained[deadline := period] = '
-            'Periodic and [budget := period] = Dedicated for both methods -- under the assumptions the constructors assert. '
-            'Does NOT decide that the closed forms equal the minimum service over all budget placements (a fact about the '
-            'scheduling model, covered only by the hand-reviewed reference).')
+            'Periodic and [budget := period] = Dedicated for both methods -- under the assumptions the constructors assert; and '
+            'SUP-SHAPE: provided_service(delta) = 0 up to the blackout (P-B)+(D-B), = delta - blackout on the next B units, = B until '
+            'blackout + P, and provided_service(delta + P) = provided_service(delta) + B afterwards, which by induction on the number of '
+            'periods determines the function: it IS the supply of the worst-case placement (budget first, then as late as the '
+            'deadline allows). Not decided: that this placement is the worst one (the scheduling-model fact of the cited paper).')
 
 
 def c10(ctx, rep):
